@@ -406,6 +406,26 @@ PROPS = {
         level_text="Generated differential search plain vs USINGZ over every operation family plus a Z-provenance check. Exploration only.",
         level_note="trusts the shim conversions, g++, rapidcheck",
     ),
+    "C14": dict(
+        bins={"main": dict(tc="tsan", src="prop_C14.cpp", variants=["plain"])},
+        parts=[dict(name="workloads", workers={Q: 5, T: 5}, cases={Q: 250, T: 10000})],
+        rule=("generated workloads under ThreadSanitizer: 2-8 threads, each with its own list of 3-8 operations (Clipper64 "
+              "into paths / polytree, Clipper64 fed from ONE shared read-only ReuseableDataContainer64 built before the "
+              "threads start, ClipperD, ClipperOffset into paths / tree, RectClip, RectClipLines, MinkowskiSum/Diff, path "
+              "utilities, InflatePaths) on its own generated data; threads mostly run the same kinds of operation in the "
+              "same order so that the same entry points execute simultaneously. Each workload is first run sequentially "
+              "(reference), then 3 times concurrently from a start barrier. Oracle: ThreadSanitizer reports no data race "
+              "(halt_on_error, exit code 66 is a violation) and every thread's results are bit-identical to the sequential "
+              "reference. Non-trivial = two threads executed the same entry point with overlapping time intervals "
+              "(measured with per-operation timestamps)"),
+        assumptions=["ThreadSanitizer's happens-before analysis: a race is reported when both unsynchronised accesses execute, whatever the interleaving",
+                     "the export layer's Z-callback globals are caller-set configuration and are not touched",
+                     "a TSan report is accepted on first reproduction out of up to 3 replays (schedules vary)"],
+        technique="property-based testing (rapidcheck) of generated concurrent workloads under ThreadSanitizer + differential against a sequential run",
+        level_text="Generated workloads over all entry points with shared read-only data, judged by TSan's race detector and by sequential/concurrent equality. Exploration only.",
+        level_note="trusts ThreadSanitizer (clang 14), clang, rapidcheck",
+        replay_any=True,
+    ),
     "C02": dict(
         bins={"main": dict(tc="gcc", src="prop_C02.cpp", variants=["plain"])},
         parts=[
